@@ -16,7 +16,8 @@ RULE = ("configurations = independent draws of each of the 15 preferred-unit slo
         "clicks, velocity for temperature, global step set with a quantity) run under two configurations; (B) every public "
         "float-or-quantity parameter (42 entries) built from a bare number and from the explicit quantity in the slot's unit, "
         "values from {0, -0.0, negative, small, large}; non-trivial = (A) configurations differing in >= 3 slots, (B) value "
-        "0 / negative or slot unit different from the dimension's base unit; distinct = distinct case dicts")
+        "0 / negative or slot unit different from the dimension's base unit; distinct = distinct case dicts; every bare number is passed "
+        "a second time under a second generated configuration")
 ASSUMPTIONS = ["raw values compared bit-for-bit in (A); in (B) all fields of the built object / the call's result, or the exception type",
                "documented ambiguity not asserted: danger_space(target_height=<bare>) may be read in the distance or the target_height slot",
                "fire(trajectory_step=0) is the documented 'not given' default of that signature and is not a bare-zero case"]
